@@ -34,6 +34,7 @@ import EPV.Gen.SuUsol
 import EPV.Gen.SuVsol
 import EPV.Gen.SuOlson
 import EPV.Lemmas.SuOlson
+import EPV.Lemmas.Bridge.SemiSu
 import EPV.Tactics
 
 set_option linter.all false
@@ -87,30 +88,55 @@ theorem disp3 (ε η : ℝ) (hε : 0 ≤ ε) (h0 : 0 < η) (h1 : η < 1) :
 theorem fam1_const (p : SuFam1.P) (x τ : ℝ) :
     SuFam1.g p x τ = SuFam1.g p 0 0 ∧ SuFam1.th p x τ = SuFam1.th p 0 0 := ⟨rfl, rfl⟩
 
+/-- inside the clamps (`tiny ≤ η ≤ 1 - tiny`) one leaf of a traced wavenumber is the documented formula:
+the branch contradicts the bounds, or sits on the lower clamp (then η = tiny), or is the unclamped one -/
+macro "su_inside " e:term : tactic =>
+  `(tactic| first
+    | (exfalso; linarith)
+    | (have he : $e = (6338253001141147 : ℝ) / 633825300114114700748351602688 :=
+        le_antisymm (by linarith) (by linarith)
+       rw [he]; epv_semi_su_eq)
+    | epv_semi_su_eq)
+
+/-- a traced wavenumber is non-negative on every leaf (η > tiny > 0 where the leaf mentions η) -/
+macro "su_nonneg " e:term : tactic =>
+  `(tactic| first
+    | positivity
+    | (have : (0 : ℝ) < $e := by linarith
+       positivity)
+    | (have : (0 : ℝ) < $e := by linarith
+       epv_pos))
+
+/-- bridge: the traced γ₁ inside the clamps is η √(ε + 1/(1-η²)) -/
+theorem fam1_g_inside (p : SuFam1.P) (x τ : ℝ) (h0 : tiny ≤ p.eta) (h1 : p.eta ≤ oneMinusTiny) :
+    SuFam1.g p x τ = p.eta * Real.sqrt (p.epsilon + 1 / (1 - p.eta * p.eta)) := by
+  unfold tiny at h0
+  unfold oneMinusTiny at h1
+  simp only [epv_tree]
+  split_ifs <;> simp only [epv_cond, not_le] at * <;> simp only [epv_leaf] <;> su_inside p.eta
+
+/-- bridge: the traced θ₁ is arccos √(3/(3+4γ₁²)) of the traced γ₁ -/
+theorem fam1_th_eq (p : SuFam1.P) (x τ : ℝ) :
+    SuFam1.th p x τ = Real.arccos (Real.sqrt (3 / (3 + 4 * SuFam1.g p x τ ^ 2))) := by
+  simp only [epv_tree]
+  split_ifs <;> simp only [epv_leaf] <;> epv_semi_su_eq
+
+theorem fam1_g_nonneg (p : SuFam1.P) (x τ : ℝ) : 0 ≤ SuFam1.g p x τ := by
+  simp only [epv_tree]
+  split_ifs <;> simp only [epv_cond, not_le] at * <;> simp only [epv_leaf] <;> su_nonneg p.eta
+
 theorem fam1_dispersion (p : SuFam1.P) (x τ : ℝ) (hε : 0 ≤ p.epsilon)
     (h0 : tiny ≤ p.eta) (h1 : p.eta ≤ oneMinusTiny) :
     Dispersion p.epsilon (p.eta * p.eta) (SuFam1.g p x τ) := by
   have hpos : 0 < p.eta := lt_of_lt_of_le tiny_pos h0
   have hlt : p.eta < 1 := lt_of_le_of_lt h1 oneMinusTiny_lt_one
-  have key := disp1 p.epsilon p.eta hε hpos hlt
-  unfold tiny at h0
-  unfold oneMinusTiny at h1
-  simp only [epv_tree]
-  split_ifs <;> simp only [epv_cond] at * <;> simp only [epv_leaf] <;>
-    first
-    | exact key
-    | exact absurd h1 ‹_›
-    | (have he := le_antisymm ‹p.eta ≤ (6338253001141147 : ℝ) / 633825300114114700748351602688› h0; rw [← he]; exact key)
+  rw [fam1_g_inside p x τ h0 h1]
+  exact disp1 p.epsilon p.eta hε hpos hlt
 
 theorem fam1_marshakPhase (p : SuFam1.P) (x τ : ℝ) :
     MarshakPhase (SuFam1.g p x τ) (SuFam1.th p x τ) := by
-  have ht := tiny_pos
-  unfold tiny at ht
-  simp only [epv_tree]
-  split_ifs <;> simp only [epv_cond] at * <;> simp only [epv_leaf] <;> apply marshakPhase_arccos <;>
-    first
-    | positivity
-    | (have : 0 < p.eta := lt_trans ht (not_le.mp ‹¬ p.eta ≤ (6338253001141147 : ℝ) / 633825300114114700748351602688›); positivity)
+  rw [fam1_th_eq]
+  exact marshakPhase_arccos _ (fam1_g_nonneg p x τ)
 
 /-- weight of the first u-integrand: 1 / max(tiny, η √(3 + 4γ₁²)) -/
 def W_u1 (p : SuFam1.P) : ℝ := 1 / max tiny (p.eta * Real.sqrt (3 + 4 * SuFam1.g p 0 0 ^ 2))
@@ -121,30 +147,39 @@ theorem fam1_integrand (p : SuFam1.P) (x τ : ℝ) :
     (p.eta * p.eta) (SuFam1.g p x τ) (SuFam1.th p x τ) x τ
   unfold tiny mode
   simp only [epv_tree]
-  split_ifs <;> simp only [epv_cond, not_le] at * <;> simp only [epv_leaf] <;>
-    simp only [max_eq_left, max_eq_right_of_lt, *] <;> ring_nf
+  split_ifs <;> simp only [epv_cond] at * <;> simp only [epv_leaf] <;> epv_semi_su_clamp
 
 /-! ### family 2 : upart2, vpart2,  s₂ = 1 + 1/(εη) -/
+
+/-- bridge: the traced γ₂ inside the clamps is √((1-η)(ε + 1/η)) -/
+theorem fam2_g_inside (p : SuFam2.P) (x τ : ℝ) (h0 : tiny ≤ p.eta) (h1 : p.eta ≤ oneMinusTiny) :
+    SuFam2.g p x τ = Real.sqrt ((1 - p.eta) * (p.epsilon + 1 / p.eta)) := by
+  unfold tiny at h0
+  unfold oneMinusTiny at h1
+  simp only [epv_tree]
+  split_ifs <;> simp only [epv_cond, not_le] at * <;> simp only [epv_leaf] <;> su_inside p.eta
+
+theorem fam2_th_eq (p : SuFam2.P) (x τ : ℝ) :
+    SuFam2.th p x τ = Real.arccos (Real.sqrt (3 / (3 + 4 * SuFam2.g p x τ ^ 2))) := by
+  simp only [epv_tree]
+  split_ifs <;> simp only [epv_leaf] <;> epv_semi_su_eq
+
+theorem fam2_g_nonneg (p : SuFam2.P) (x τ : ℝ) : 0 ≤ SuFam2.g p x τ := by
+  simp only [epv_tree]
+  split_ifs <;> simp only [epv_cond, not_le] at * <;> simp only [epv_leaf] <;> su_nonneg p.eta
 
 theorem fam2_dispersion (p : SuFam2.P) (x τ : ℝ) (hε : 0 < p.epsilon)
     (h0 : tiny ≤ p.eta) (h1 : p.eta ≤ oneMinusTiny) :
     Dispersion p.epsilon (1 + 1 / (p.eta * p.epsilon)) (SuFam2.g p x τ) := by
   have hpos : 0 < p.eta := lt_of_lt_of_le tiny_pos h0
   have hlt : p.eta < 1 := lt_of_le_of_lt h1 oneMinusTiny_lt_one
-  have key := disp2 p.epsilon p.eta hε hpos hlt
-  unfold tiny at h0
-  unfold oneMinusTiny at h1
-  simp only [epv_tree]
-  split_ifs <;> simp only [epv_cond] at * <;> simp only [epv_leaf] <;>
-    first
-    | exact key
-    | exact absurd h1 ‹_›
-    | (have he := le_antisymm ‹p.eta ≤ (6338253001141147 : ℝ) / 633825300114114700748351602688› h0; rw [← he]; exact key)
+  rw [fam2_g_inside p x τ h0 h1]
+  exact disp2 p.epsilon p.eta hε hpos hlt
 
 theorem fam2_marshakPhase (p : SuFam2.P) (x τ : ℝ) :
     MarshakPhase (SuFam2.g p x τ) (SuFam2.th p x τ) := by
-  simp only [epv_tree]
-  split_ifs <;> simp only [epv_leaf] <;> apply marshakPhase_arccos <;> exact Real.sqrt_nonneg _
+  rw [fam2_th_eq]
+  exact marshakPhase_arccos _ (fam2_g_nonneg p x τ)
 
 def W_u2 (p : SuFam2.P) : ℝ :=
   1 / max tiny (p.eta * (1 + p.epsilon * p.eta) * Real.sqrt (3 + 4 * SuFam2.g p 0 0 ^ 2))
@@ -158,8 +193,7 @@ theorem fam2_integrand_u (p : SuFam2.P) (x τ : ℝ) :
     (1 / max tiny (p.eta * p.epsilon)) (SuFam2.g p x τ) (SuFam2.th p x τ) x τ
   unfold tiny mode
   simp only [epv_tree]
-  split_ifs <;> simp only [epv_cond, not_le] at * <;> simp only [epv_leaf] <;>
-    simp only [max_eq_left, max_eq_right_of_lt, *] <;> ring_nf
+  split_ifs <;> simp only [epv_cond] at * <;> simp only [epv_leaf] <;> epv_semi_su_clamp
 
 theorem fam2_integrand_v (p : SuFam2.P) (x τ : ℝ) :
     SuFam2.vpart2 p x τ = mode (W_v2 p) (s2' p) (SuFam2.g p 0 0) (SuFam2.th p 0 0) x τ := by
@@ -167,30 +201,39 @@ theorem fam2_integrand_v (p : SuFam2.P) (x τ : ℝ) :
     (1 / max tiny (p.eta * p.epsilon)) (SuFam2.g p x τ) (SuFam2.th p x τ) x τ
   unfold tiny mode
   simp only [epv_tree]
-  split_ifs <;> simp only [epv_cond, not_le] at * <;> simp only [epv_leaf] <;>
-    simp only [max_eq_left, max_eq_right_of_lt, *] <;> ring_nf
+  split_ifs <;> simp only [epv_cond] at * <;> simp only [epv_leaf] <;> epv_semi_su_clamp
 
 /-! ### family 3 : vpart1,  s₃ = 1 - η² -/
+
+/-- bridge: the traced γ₃ inside the clamps is √((1-η²)(ε + 1/η²)) -/
+theorem fam3_g_inside (p : SuFam3.P) (x τ : ℝ) (h0 : tiny ≤ p.eta) (h1 : p.eta ≤ oneMinusTiny) :
+    SuFam3.g p x τ = Real.sqrt ((1 - p.eta * p.eta) * (p.epsilon + 1 / (p.eta * p.eta))) := by
+  unfold tiny at h0
+  unfold oneMinusTiny at h1
+  simp only [epv_tree]
+  split_ifs <;> simp only [epv_cond, not_le] at * <;> simp only [epv_leaf] <;> su_inside p.eta
+
+theorem fam3_th_eq (p : SuFam3.P) (x τ : ℝ) :
+    SuFam3.th p x τ = Real.arccos (Real.sqrt (3 / (3 + 4 * SuFam3.g p x τ ^ 2))) := by
+  simp only [epv_tree]
+  split_ifs <;> simp only [epv_leaf] <;> epv_semi_su_eq
+
+theorem fam3_g_nonneg (p : SuFam3.P) (x τ : ℝ) : 0 ≤ SuFam3.g p x τ := by
+  simp only [epv_tree]
+  split_ifs <;> simp only [epv_cond, not_le] at * <;> simp only [epv_leaf] <;> su_nonneg p.eta
 
 theorem fam3_dispersion (p : SuFam3.P) (x τ : ℝ) (hε : 0 ≤ p.epsilon)
     (h0 : tiny ≤ p.eta) (h1 : p.eta ≤ oneMinusTiny) :
     Dispersion p.epsilon (1 - p.eta * p.eta) (SuFam3.g p x τ) := by
   have hpos : 0 < p.eta := lt_of_lt_of_le tiny_pos h0
   have hlt : p.eta < 1 := lt_of_le_of_lt h1 oneMinusTiny_lt_one
-  have key := disp3 p.epsilon p.eta hε hpos hlt
-  unfold tiny at h0
-  unfold oneMinusTiny at h1
-  simp only [epv_tree]
-  split_ifs <;> simp only [epv_cond] at * <;> simp only [epv_leaf] <;>
-    first
-    | exact key
-    | exact absurd h1 ‹_›
-    | (have he := le_antisymm ‹p.eta ≤ (6338253001141147 : ℝ) / 633825300114114700748351602688› h0; rw [← he]; exact key)
+  rw [fam3_g_inside p x τ h0 h1]
+  exact disp3 p.epsilon p.eta hε hpos hlt
 
 theorem fam3_marshakPhase (p : SuFam3.P) (x τ : ℝ) :
     MarshakPhase (SuFam3.g p x τ) (SuFam3.th p x τ) := by
-  simp only [epv_tree]
-  split_ifs <;> simp only [epv_leaf] <;> apply marshakPhase_arccos <;> exact Real.sqrt_nonneg _
+  rw [fam3_th_eq]
+  exact marshakPhase_arccos _ (fam3_g_nonneg p x τ)
 
 def W_v1 (p : SuFam3.P) : ℝ :=
   1 / max tiny (Real.sqrt (4 - p.eta * p.eta + 4 * p.epsilon * (p.eta * p.eta) * (1 - p.eta * p.eta)))
@@ -200,8 +243,7 @@ theorem fam3_integrand (p : SuFam3.P) (x τ : ℝ) :
   change SuFam3.vpart1 p x τ = mode (W_v1 p) (1 - p.eta * p.eta) (SuFam3.g p x τ) (SuFam3.th p x τ) x τ
   unfold W_v1 tiny mode
   simp only [epv_tree]
-  split_ifs <;> simp only [epv_cond, not_le] at * <;> simp only [epv_leaf] <;>
-    simp only [max_eq_left, max_eq_right_of_lt, *] <;> ring_nf
+  split_ifs <;> simp only [epv_cond] at * <;> simp only [epv_leaf] <;> epv_semi_su_clamp
 
 /-! ### assembly of u and v from the four integrals -/
 
@@ -212,13 +254,13 @@ theorem usol_shape (p : SuUsol.P) :
     SuUsol.val p = 1 - 2 * rt3opi * p.I_upart1 - rt3opi * Real.exp (-p.tau) * p.I_upart2 := by
   unfold rt3opi
   simp only [epv_tree]
-  split_ifs <;> simp only [epv_leaf] <;> ring
+  split_ifs <;> simp only [epv_leaf] <;> epv_semi_su_eq
 
 theorem vsol_shape (p : SuVsol.P) :
     SuVsol.val p = p.uans - 2 * rt3opi * p.I_vpart1 + rt3opi * Real.exp (-p.tau) * p.I_vpart2 := by
   unfold rt3opi
   simp only [epv_tree]
-  split_ifs <;> simp only [epv_leaf] <;> ring
+  split_ifs <;> simp only [epv_leaf] <;> epv_semi_su_eq
 
 /-! ### the modes solve the system -/
 
@@ -392,38 +434,22 @@ boundary temperature in kelvin -/
 theorem suolson_conversion_rad (p : SuOlson.P) (z t : ℝ) (ht : 0 < t) :
     SuOlson.temperature_rad p z t
       = kev * physT (Ufield p) cLight asol p.opac p.alpha (p.trad_bc_ev / kev) z t := by
-  have hc0 : ¬ SuOlson.c0 p z t := by simp only [epv_cond]; exact not_le.mpr ht
-  simp only [epv_tree]
-  rw [if_neg hc0]
-  simp only [epv_leaf]
   unfold physT Ufield cLight a4c asol kev
-  rw [div_one, mul_comm]
-  have hc : ∀ U B : ℝ, U * ((4795467806665221 : ℝ) / 633825300114114700748351602688 * B)
-      / ((4795467806665221 : ℝ) / 633825300114114700748351602688) = U * B := fun U B => by field_simp
-  rw [hc]
-  congr 4
-  · field_simp
-  · ring
+  simp only [epv_tree]
+  split_ifs with hc0
+  · exfalso; simp only [epv_cond] at hc0; linarith
+  · simp only [epv_leaf]
+    epv_semi_su_eq
 
 theorem suolson_conversion_mat (p : SuOlson.P) (z t : ℝ) (ht : 0 < t) :
     SuOlson.temperature_mat p z t
       = kev * physT (Vfield p) cLight asol p.opac p.alpha (p.trad_bc_ev / kev) z t := by
-  have hc0 : ¬ SuOlson.c0 p z t := by simp only [epv_cond]; exact not_le.mpr ht
-  simp only [epv_tree]
-  rw [if_neg hc0]
-  simp only [epv_leaf]
   unfold physT Vfield cLight a4c asol kev
-  rw [div_one, mul_comm]
-  have hc : ∀ U B : ℝ, U * ((4795467806665221 : ℝ) / 633825300114114700748351602688 * B)
-      / ((4795467806665221 : ℝ) / 633825300114114700748351602688) = U * B := fun U B => by field_simp
-  rw [hc]
-  have e2 : (2092048934748215 : ℝ) / 2305843009213693952 * p.opac * (1 / p.alpha) * t
-      = 4 * ((4795467806665221 : ℝ) / 633825300114114700748351602688)
-        * ((2092048934748215 : ℝ) / 2305843009213693952 / (4 * ((4795467806665221 : ℝ) / 633825300114114700748351602688)))
-        * p.opac / p.alpha * t := by field_simp
-  have e3 : (4795467806665221 : ℝ) / 158456325028528675187087900672 * (1 / p.alpha)
-      = 4 * ((4795467806665221 : ℝ) / 633825300114114700748351602688) / p.alpha := by ring
-  rw [e2, e3]
+  simp only [epv_tree]
+  split_ifs with hc0
+  · exfalso; simp only [epv_cond] at hc0; linarith
+  · simp only [epv_leaf]
+    epv_semi_su_eq
 
 
 /-! ### the physical system, for the fields derived from the returned temperatures -/
